@@ -96,6 +96,24 @@ HISTORY = {
     "C18-5": ("caught (round 3)", ""),
     "C19-5": ("caught (round 3)", ""),
     "C20-5": ("missed (round 3)", "C20 rollback-discards-suffix/<fn>/all-but-consumed: the release loop passes over exactly the consumed entry (guards on the enumerate index and skip() evaluated for the first indices)"),
+    "C01-7": ("caught by C08 only (round 4)", "C01 shares C08's no-stale-overwrite (a record saved after the sync was re-read after it)"),
+    "C02-7": ("caught by C10/C18 only (round 4)", "C02 / C10 / C18 upsert-complete/<table>/unconditional (no WHERE on the DO UPDATE side)"),
+    "C03-7": ("missed (round 4)", "C03 remove-every-leaf/selected-by-membership-only (no second condition on the iterated member inside the walk)"),
+    "C04-7": ("missed (round 4)", "C04 id-verified / C10 upsert-complete `stored-verbatim`: no content-changing operation (incl. in place through &mut) between the record and the bound values"),
+    "C05-7": ("caught (round 4)", ""),
+    "C06-7": ("caught by C05 only (round 4)", "C06 refused-event-writes/ignored-proposal-not-queued (the IgnoredProposal answer is not reachable from the success edge of a state-advancing MLS call)"),
+    "C07-7": ("missed (round 4)", "C07 redelivery-readonly (arms on terminal processed-message states reach no OpenMLS call taking the group mutably)"),
+    "C08-7": ("caught by a brittle sub-rule only (round 4; `save_group writes 0 maps` would also have fired on the correct helper refactor)", "C08 routing-index rules see through same-crate helpers; C09 / C08 index-entry-leaves-with-record (the index entry keyed by the removed record's id, read no later than the removal)"),
+    "C09-7": ("caught by an artefact only (round 4; alias stripping made the join ambiguous)", "sqlmod keeps qualifiers for join statements; C09 sql-scope/snapshot/<table>/copies-every-row (the copy is restricted by the group key only)"),
+    "C10-7": ("missed (round 4)", "C10 refusal-leaves-state (memory backend: no error exit reachable after a mutation of the storage's maps)"),
+    "C11-7": ("missed (round 4)", "C11 hydration-coverage/<fn>/hydrate-first (ensure_hydrated precedes the method's storage calls and queue accesses)"),
+    "C12-7": ("caught (round 4)", ""),
+    "C13-7": ("caught by a brittle sub-rule only (round 4; `existing-file errors no longer produced` looked at the function body, not its closures)", "C13 keyring/existing-file/keyring-before-header; error constructions looked up in the function's family"),
+    "C14-7": ("caught (round 4)", ""),
+    "C15-7": ("missed (round 4)", "C15 encoding/content-verbatim (no normaliser between the event content and the base64 / hex decoder, callers included)"),
+    "C16-7": ("caught (round 4)", ""),
+    "C17-7": ("missed (round 4)", "C17 aead-siblings/accepts-agree/filename-length (upload path and imeta parser refuse above the same constant; a bound reaching an API parameter is a mismatch)"),
+    "C18-7": ("caught (round 4)", ""),
 }
 rows = ["| id | change (needs) | first | now caught by | strengthened |", "|----|----------------|-------|---------------|--------------|"]
 sd = os.path.join(VERIF, "seeded")
